@@ -901,10 +901,20 @@ func genInit(t *rapid.T) []int {
 	return rapid.SliceOfN(rapid.IntRange(0, poolSize-1), 0, 4).Draw(t, "init")
 }
 
+// genChunked draws a list of ops as a list of chunks of 1-4 ops: longer
+// programs than a plain SliceOf produces, and rapid can still delete chunks
+// and ops while shrinking.
+func genChunked[O any](t *rapid.T, g *rapid.Generator[O], maxChunks int) []O {
+	var out []O
+	for _, ch := range rapid.SliceOfN(rapid.SliceOfN(g, 1, 4), 1, maxChunks).Draw(t, "ops") {
+		out = append(out, ch...)
+	}
+	return out
+}
+
 func genTraceSeq(t *rapid.T) TProg {
 	p := TProg{Init: genInit(t)}
-	minLen := rapid.SampledFrom([]int{1, 1, 12, 25}).Draw(t, "min_ops")
-	p.Gs = [][]TOp{rapid.SliceOfN(genRawTOp(false), minLen, 60).Draw(t, "ops")}
+	p.Gs = [][]TOp{genChunked(t, genRawTOp(false), 20)}
 	normaliseT(&p)
 	return p
 }
@@ -944,17 +954,14 @@ func hasCancelledFirstShutdown(p TProg) bool {
 	return false
 }
 
-// knownTrace: TracerProvider.Shutdown returns from inside its loop when the
-// context is already done, after it has marked the provider as shut down.
-var knownTrace = map[string]func(TProg, vk.Violation) bool{
-	"tp_shutdown_cancelled_ctx_skips_processors": func(p TProg, v vk.Violation) bool {
-		switch v.Kind {
-		case "not_shut_down", "delivery_after_shutdown", "export_after_shutdown", "call_after_shutdown_failed":
-			return hasCancelledFirstShutdown(p)
-		}
-		return false
-	},
-}
+// knownTrace: no open known finding. The defect this check found
+// (TracerProvider.Shutdown returned from inside its loop when the context was
+// already done, after it had marked the provider as shut down) was repaired in
+// /repo; see known_findings.json ("fixed: property=C15 ...") and the regression
+// replay replays/regress/C15/tp_shutdown_cancelled_ctx_skips_processors.json.
+var knownTrace = map[string]func(TProg, vk.Violation) bool{}
+
+var _ = hasCancelledFirstShutdown // kept for documentation of the failing program shape
 
 func runTraceSeq(p TProg) ([]vk.Violation, vk.Info) {
 	var info vk.Info
@@ -997,7 +1004,7 @@ func dedup(xs []string) []string {
 func TestTraceMembership(t *testing.T) {
 	vk.Run(t, vk.Spec[TProg]{
 		Property: "C15", Check: "trace_membership",
-		Rule: "generated op lists (1-60 ops: Register / Unregister of members, non-members, nil and a never-registered processor of non-comparable type / Tracer / Start / End / ForceFlush / Shutdown with live or already-cancelled contexts, repeated) on a TracerProvider built with 0-4 of a pool of 8 processors (4 recording ones, one of them failing, simple and batch processors around a recording exporter and around nil), each processor registered at most once; exact model of the ordered membership; " +
+		Rule: "generated op lists (1-80 ops: Register / Unregister of members, non-members, nil and a never-registered processor of non-comparable type / Tracer / Start / End / ForceFlush / Shutdown with live or already-cancelled contexts, repeated) on a TracerProvider built with 0-4 of a pool of 8 processors (4 recording ones, one of them failing, simple and batch processors around a recording exporter and around nil), each processor registered at most once; exact model of the ordered membership; " +
 			"non-trivial = the program unregisters a non-member or a middle member while the provider is up and makes a Start/End call after a Shutdown with a live context returned nil; distinct = distinct case encodings",
 		Quick: 6000, Thorough: 80000,
 		Gen: genTraceSeq, Run: runTraceSeq, Known: knownTrace,
